@@ -1253,6 +1253,11 @@ def main():
          'stdout-bytes:loop-or-routine'),
         ('define h with x begin printf "<{x}>" return x end\nassign y 9\nprintf "{} {y} {}" 1 [h 2]\n',
          '<2> 1 9 2\n', 'stdout-bytes:loop-or-routine'),
+        # inside a routine a named field, a positional value and an expression over a PARAMETER take
+        # the parameter, also when a macro of the same name was defined before the routine
+        ('define step 10\ndefine show with step begin printf "named={step} positional={}" step println '
+         'print step println {step * 2} end\nshow 3\nassign step2 4\nshow step2\n',
+         'named=3 positional=3\n3 6\nnamed=4 positional=4\n4 8\n', 'stdout-bytes:loop-or-routine'),
         ('printf "{:>{}}|" 5 6\n', '     5|\n', 'printf-nested-field'),
         ('assign w 6\nprintf "{:>{w}}|" 5\n', '     5|\n', 'printf-nested-field'),
         ('assign x 5\nprintf "{x.real}|{x.imag}"\n', '5|0\n', 'printf-compound-field-name'),
